@@ -106,9 +106,10 @@ inline void shift_right(T *first, SizeType n, SizeType count) noexcept {
 /// moved-from) and the next slots up to 'first + count' are uninitialized memory.
 template <class T, class SizeType, typename std::enable_if<!amc::is_trivially_relocatable<T>::value, bool>::type = true>
 void unshift_right(T *first, SizeType n, SizeType count) noexcept(is_shift_nothrow<T>::value) {
+  // the objects beyond 'first + n' (the last min(n, count) slots of the shifted range) are destroyed once the elements have
+  // been moved back, and also when one of these moves throws: nobody knows about them
+  DestroyGuard<T, SizeType> guard(first + std::max(n, count), std::min(n, count));
   std::move(first + count, first + count + n, first);
-  // the objects beyond 'first + n' are now all moved-from: the last min(n, count) slots of the shifted range
-  amc::destroy_n(first + std::max(n, count), std::min(n, count));
 }
 
 /// Trivially relocatable types: the slots starting at 'first' are uninitialized memory, relocate the elements back.
@@ -196,9 +197,10 @@ inline void destroy_after_shift(T *) {}
 /// Requirements: n != 0 with one slot of initialized memory at first - 1
 template <class T, class SizeType, typename std::enable_if<!amc::is_trivially_relocatable<T>::value, bool>::type = true>
 void shift_left(T *first, SizeType n) noexcept(is_shift_nothrow<T>::value) {
+  // the last element is destroyed once the elements have been moved, and also when one of these moves throws
+  DestroyGuard<T, SizeType> guard(first + n - 1, 1);
   *(first - 1) = std::move(*first);  // move first element to initialized memory slot 'first - 1'
-  // move next 'n - 1' elements one slot to the left and destroy last moved element
-  amc::destroy_at(std::move(first + 1, first + n, first));
+  std::move(first + 1, first + n, first);  // move next 'n - 1' elements one slot to the left
 }
 
 template <class T, class SizeType, typename std::enable_if<amc::is_trivially_relocatable<T>::value, bool>::type = true>
@@ -396,8 +398,8 @@ inline void emplace_n(T *pos, SizeType n, Args &&...args) {
     try {
       relocate_after_shift(e.ptr(), pos);
     } catch (...) {
+      DestroyGuard<T, SizeType> guard(e.ptr(), 1);  // also when moving the elements back throws
       shift_left(pos + 1, n);
-      amc::destroy_at(e.ptr());
       throw;
     }
   }
@@ -1019,8 +1021,8 @@ class DynamicVector : public DynamicVectorBaseTypeDispatcher<T, Alloc, SizeType,
         try {
           relocate_after_shift(e.ptr(), pos);
         } catch (...) {
+          DestroyGuard<T, SizeType> guard(e.ptr(), 1);  // also when moving the elements back throws
           shift_left(pos + 1, nElemsToShift);
-          amc::destroy_at(e.ptr());
           throw;
         }
       }
